@@ -3,6 +3,7 @@ import PwVerif.Model.CacheTree
 import PwVerif.Model.CacheForest
 import PwVerif.Model.CacheFetchTree
 import PwVerif.Model.CacheCmp
+import PwVerif.Model.CacheSer
 import PwVerif.Model.Proto
 open PwVerif.Cache PwVerif.Proto
 open PwVerif.CacheTree (T Src K KidK KCfg Sem St)
@@ -30,6 +31,9 @@ structure DSt where
   cur : St String
   prop : St String
   forest : Root String
+  forestP : Root String          -- … where a child run by hand drops the root's record (proposed)
+  zc : PwVerif.CacheSer.N        -- serialized-result histories, cached
+  zu : PwVerif.CacheSer.N        -- …, cache-free twin
   fetch : PwVerif.CacheFetchTree.St String
   vsame : List ((Nat × Nat) × (Bool × Bool))   -- (current value, remembered value) ↦ (`==` truthy, … and same type/shape)
   vdesc : List (Nat × Nat)                       -- value ↦ what the function returns
@@ -38,7 +42,8 @@ structure DSt where
 
 def St0 : St String := { vals := [], kids := [], outs := [], cache := none }
 def DSt.init : DSt :=
-  { beh := [], rc := N.init, ru := N.init, sc := N.init, su := N.init, nc := N.init, nu := N.init, hc := N.init, hu := N.init, cur := St0, prop := St0, forest := { kids := [], cache := none }, fetch := { body := [], cache := none }, vsame := [], vdesc := [],
+  { beh := [], rc := N.init, ru := N.init, sc := N.init, su := N.init, nc := N.init, nu := N.init, hc := N.init, hu := N.init, cur := St0, prop := St0, forest := { kids := [], cache := none }, forestP := { kids := [], cache := none },
+    zc := PwVerif.CacheSer.N.init, zu := PwVerif.CacheSer.N.init, fetch := { body := [], cache := none }, vsame := [], vdesc := [],
     vc := PwVerif.CacheCmp.St.init, vp := PwVerif.CacheCmp.St.init }
 
 def showR : R → String
@@ -148,10 +153,10 @@ def editTree (s : DSt) (path : List Nat) (structural : Bool) (f : List (Nat × T
     let kids := PwVerif.CacheTree.atPath f path st.kids
     let op : PwVerif.CacheTree.Op String := if structural && path.isEmpty then .structural kids else .edit kids
     (PwVerif.CacheTree.step strSem KCfg.current FUEL true st op).1
-  let fr : Root String :=
-    { kids := PwVerif.CacheForest.atPathC structural gc path s.forest.kids,
-      cache := if structural && path.isEmpty then none else s.forest.cache }
-  { s with cur := g s.cur, prop := g s.prop, forest := fr }
+  let fe : Root String → Root String := fun r =>
+    Root.mk (PwVerif.CacheForest.atPathC structural gc path r.kids)
+      (if structural && path.isEmpty then none else r.cache)
+  { s with cur := g s.cur, prop := g s.prop, forest := fe s.forest, forestP := fe s.forestP }
 
 /-- the function nodes whose cache entry changed in a run = those that executed (a hit leaves it, a miss rewrites it) -/
 partial def executed : Kids String → Kids String → List String
@@ -164,13 +169,42 @@ def insertSorted (x : String) : List String → List String
   | [] => [x]
   | y :: ys => if x ≤ y then x :: y :: ys else y :: insertSorted x ys
 
-def forestRun (s : DSt) : DSt × List String :=
-  let h := s.forest.hit KCfg.proposed
-  match PwVerif.CacheForest.stepC strSem KCfg.proposed FUEL s.forest .run with
+def forestRun1 (tag : String) (r : Root String) : Root String × String :=
+  let h := r.hit KCfg.proposed
+  match PwVerif.CacheForest.stepC strSem KCfg.proposed FUEL r .run with
   | some (r', some outs) =>
-    let calls := (executed s.forest.kids r'.kids).foldr insertSorted []
-    ({ s with forest := r' }, [s!"F hit={h} c={showOuts outs} calls={",".intercalate calls}"])
-  | _ => (s, ["F none"])
+    let calls := (executed r.kids r'.kids).foldr insertSorted []
+    (r', s!"{tag} hit={h} c={showOuts outs} calls={",".intercalate calls}")
+  | _ => (r, s!"{tag} none")
+
+def forestRun (s : DSt) : DSt × List String :=
+  let (f1, l1) := forestRun1 "F" s.forest
+  let (f2, l2) := forestRun1 "FP" s.forestP
+  ({ s with forest := f1, forestP := f2 }, [l1, l2])
+
+/-- child `l` of the root is run by hand (outside a run of the graph) -/
+def forestHand (s : DSt) (l : Nat) : DSt × List String :=
+  let one := fun (tag : String) (clear : Bool) (r : Root String) =>
+    match PwVerif.CacheForest.stepC strSem KCfg.proposed FUEL r (.handRun l clear) with
+    | some (r', _) =>
+      let calls := (executed r.kids r'.kids).foldr insertSorted []
+      (r', s!"{tag} hand {l} out={PwVerif.CacheForest.outAt strSem l r'.kids} calls={",".intercalate calls}")
+    | none => (r, s!"{tag} none")
+  let (f1, l1) := one "F" false s.forest
+  let (f2, l2) := one "FP" true s.forestP
+  ({ s with forest := f1, forestP := f2 }, [l1, l2])
+
+def showZR : PwVerif.CacheSer.R → String
+  | .ret none => "ret:ND" | .ret (some v) => s!"ret:F({v})" | .future => "future" | .readiness => "readiness"
+  | .waiting => "waiting" | .locked => "locked" | .unit => "unit"
+
+def zApply (s : DSt) (op : PwVerif.CacheSer.Op) : DSt × List String :=
+  let (zc, r1) := PwVerif.CacheSer.step true true s.zc op
+  let (zu, r2) := PwVerif.CacheSer.step true false s.zu op
+  let vis := fun (n : PwVerif.CacheSer.N) =>
+    let o := match n.out with | none => "ND" | some v => s!"F({v})"
+    s!"{n.inp},{o},{n.running}"
+  ({ s with zc, zu }, [s!"Z c={showZR r1} u={showZR r2} vc={vis zc} vu={vis zu}"])
 
 def treeRun (s : DSt) : DSt × List String :=
   let one := fun (c : KCfg) (st : St String) (tag : String) =>
@@ -281,6 +315,16 @@ def step' (s : DSt) (ws : List String) : DSt × List String :=
       | _ => (s, ["bad-op"])
     | _, _, _ => (s, ["bad-op"])
   | ["trun"] => treeRun s
+  | ["thandrun", l] => match l.toNat? with
+    | some l => forestHand s l
+    | none => (s, ["bad-op"])
+  | ["zset", v] => match v.toNat? with
+    | some v => zApply s (.set v)
+    | none => (s, ["bad-op"])
+  | ["zrun"] => zApply s .run
+  | ["zsubmit"] => zApply s .ssubmit
+  | ["zwork"] => zApply s .work
+  | ["zdeliver"] => zApply s .deliver
   | "ftleaf" :: p :: l :: c :: ins =>
     match parsePath p, l.toNat?, c.toNat?, ins.mapM parseIn with
     | some p, some l, some c, some ins => (ftEdit s p (fun ks => ks ++ [.leaf l c ins strSem.nd]), [])
